@@ -157,8 +157,17 @@ def r2_template_equals_check(ctx):
             if tpl is None:
                 raise AnalysisError(f"{cg.loc(ctor)}: non-literal check template")
             s = {}
-            for k in ctor.keywords:
-                s[k.arg] = src(k.value).replace(recv_name(cg) + ".", rv + ".")
+            pairs = [(k.arg, k.value) for k in ctor.keywords]
+            if len(ctor.args) >= 2:
+                d = ctor.args[1]
+                if isinstance(d, ast.Dict) and all(isinstance(k, ast.Constant) for k in d.keys):
+                    pairs += [(k.value, v) for k, v in zip(d.keys, d.values)]
+                elif isinstance(d, ast.Call) and call_name(d) == "dict" and not d.args:
+                    pairs += [(k.arg, k.value) for k in d.keywords]
+                else:
+                    raise AnalysisError(f"{cg.loc(ctor)}: substitutions of the check template are not a literal mapping")
+            for name, value in pairs:
+                s[name] = src(value).replace(recv_name(cg) + ".", rv + ".")
             got = _norm_eq(_subst_template(tpl, s, arg), rv)
             ctx.touch(cg, ck)
             n += 1
